@@ -687,3 +687,128 @@ def function_grid(rng) -> T.Iterator[T.Tuple[str, str]]:
         for sh in shapes:
             yield f'f:{f}', f"v = 3\nx = {f}({sh})\n"
             yield f'f:{f}', f"v = 3\n{f}({sh})\nw = is_variable('v')\n"
+
+
+# ---------------------------------------------------------------- multi-file programs (subdir / subproject)
+
+def _frag(g: Gen, n: int) -> T.List[str]:
+    lines: T.List[str] = []
+    for _ in range(n):
+        lines += g.stmt(0, '')
+    return lines
+
+
+TREE_ERRORS = ["subdir('..')", "subdir('')", "subdir('subprojects')", "subdir('meson-x')", "subdir('/abs')", "subdir('nofile')",
+               "subdir(1)", "subdir('sub', 'lib')", "subdir_done(1)", "subdir_done(k: 1)", "subproject('')", "subproject('.x')",
+               "subproject('a..b')", "subproject('/abs')", "subproject(1)", "x = subdir('lib2')", "message(subproject('sp'))",
+               "q = subproject('sp') == 1", "q = subproject('sp') == subproject('sp')", "q = [subproject('sp')]",
+               "q = subproject('sp').get_variable('no_such_variable')", "q = subproject('sp').get_variable()",
+               "q = subproject('sp').get_variable(1)", "q = subproject('sp').nope()", "q = subproject('sp').found(1)",
+               "subdir_done()"]
+
+
+def tree_program(rng) -> T.Tuple[str, T.Dict[str, str]]:
+    """a top-level build file plus subdir()/subproject() files.  subdir files continue the caller's typed
+    environment (they share its variables); subproject files start from an empty one"""
+    g = Gen(rng, mutant=rng.random() < 0.15, max_stmts=4)
+    g.env = {}
+    g.loop = 0
+    files: T.Dict[str, str] = {}
+    main: T.List[str] = _frag(g, rng.randint(0, 3))
+    sp_envs: T.Dict[str, T.Dict[str, T.Any]] = {}
+
+    def subdir_file(prefix: str, depth: int) -> str:
+        body = _frag(g, rng.randint(1, 3))
+        if depth < 2 and rng.random() < 0.3:
+            inner = rng.choice(['inner', 'more'])
+            rel = prefix + '/' + inner
+            if rel not in files:
+                files[rel] = ''            # reserve, filled below (generation order = execution order)
+                body.append(f"subdir('{inner}')")
+                files[rel] = subdir_file(rel, depth + 1)
+                body += _frag(g, rng.randint(0, 2))
+        if rng.random() < 0.2:
+            body.append('subdir_done()' if rng.random() < 0.7 else "if true\n  subdir_done()\nendif")
+            saved = dict(g.env)
+            body += _frag(g, rng.randint(1, 2))     # never runs: its definitions must not be relied upon
+            g.env = saved
+        return '\n'.join(body) + '\n'
+
+    def subproject_file(name: str, depth: int) -> str:
+        nonlocal g
+        outer = g
+        g = Gen(rng, mutant=rng.random() < 0.1, max_stmts=4)
+        g.env = {}
+        g.loop = 0
+        body = [f"project('{name}')"] + _frag(g, rng.randint(1, 3))
+        if rng.random() < 0.3:
+            body.append(f"message(is_variable('{rng.choice(NAMES)}'), get_variable('{rng.choice(NAMES)}', 'none'))")
+        if rng.random() < 0.25:
+            rel = f'subprojects/{name}/d'
+            body.append("subdir('d')")
+            files[rel] = '\n'.join(_frag(g, rng.randint(1, 2))) + '\n'
+        if depth == 0 and rng.random() < 0.2:
+            other = 'sq' if name != 'sq' else 'sr'
+            if f'subprojects/{other}' not in files:
+                files[f'subprojects/{other}'] = ''
+                files[f'subprojects/{other}'] = subproject_file(other, depth + 1)
+            body.append(f"nested = subproject('{other}')")
+            ne = sp_envs.get(other, {})
+            if ne and rng.random() < 0.7:
+                v = rng.choice(list(ne))
+                body.append(f"from_nested = nested.get_variable('{v}')")
+                g.env['from_nested'] = ne[v]
+        if rng.random() < 0.06:
+            body.append(f"again = subproject('{name}')")      # recursive include: InvalidCode
+        if rng.random() < 0.1:
+            body.append(rng.choice(['subdir_done()', 'break', 'continue']))
+        sp_envs[name] = dict(g.env)
+        g = outer
+        return '\n'.join(body) + '\n'
+
+    for _ in range(rng.randint(1, 4)):
+        r = rng.random()
+        if r < 0.4:
+            d = rng.choice(['sub', 'lib', 'sub', 'tools'])
+            if d not in files or rng.random() < 0.05:          # entering a directory twice is an error
+                if d not in files:
+                    files[d] = ''
+                    main.append(f"subdir('{d}')")
+                    files[d] = subdir_file(d, 0)
+                else:
+                    main.append(f"subdir('{d}')")
+            main += _frag(g, rng.randint(0, 2))
+        elif r < 0.88:
+            name = rng.choice(['sp', 'sq', 'sp'])
+            var = rng.choice(['sp', 'proj', 'dep_' + name])
+            if f'subprojects/{name}' not in files:
+                files[f'subprojects/{name}'] = ''
+                files[f'subprojects/{name}'] = subproject_file(name, 0)
+            main.append(f"{var} = subproject('{name}')")
+            env = sp_envs.get(name, {})
+            for _k in range(rng.randint(0, 3)):
+                q = rng.random()
+                if env and q < 0.5:
+                    v = rng.choice(list(env))
+                    tgt = rng.choice(NAMES)
+                    main.append(f"{tgt} = {var}.get_variable('{v}')")
+                    g.env[tgt] = env[v]
+                elif q < 0.65:
+                    main.append(f"message({var}.get_variable('zz_missing', {g.atom(rng.choice(SCALARS), 0)}), {var}.found())")
+                elif q < 0.85:
+                    v = rng.choice(list(env) + NAMES[:3])
+                    main.append(f"message(is_variable('{v}'), get_variable('{v}', 'unset'))")
+                else:
+                    main += _frag(g, 1)
+        elif r < 0.95:
+            main.append(rng.choice(TREE_ERRORS))
+        else:
+            main.append("foreach it : [1, 2]")
+            d = rng.choice(['loopdir', 'sub'])
+            if d not in files:
+                files[d] = rng.choice(["n_in = it\n", "if it == 1\n  break\nendif\n", "continue\n", "subdir_done()\nzz = 1\n"])
+            main.append(f"  subdir('{d}')")
+            main.append("  message(it)")
+            main.append("endforeach")
+    main += _frag(g, rng.randint(0, 2))
+    return '\n'.join(main) + '\n', {k: v for k, v in files.items() if v}
